@@ -484,4 +484,22 @@ def assignFrom : Nat → List (Entry MCond Out) → List KEntry × List (List Pr
     | (c, some ps) => let r := assignFrom (next + 1) es; (mkK e c :: r.1, ps :: r.2)
     | (c, none) => let r := assignFrom next es; (mkK e c :: r.1, r.2)
 
+/-- typed payload for a compiled condition with the builder's trie SHARING: `ip()`/`sip()` sets go
+through `lpmDedup` (C12's `Builder.addSet`, arbitrary hash, collision check), `mac()` sets always get
+a trie of their own. -/
+def kcondShare (hash : List Prefix → Nat) (b : Builder) : MCond → KCond × Builder
+  | .ipSet ps => let r := b.addSet hash ps; (.ipSet r.2, r.1)
+  | .srcIpSet ps => let r := b.addSet hash ps; (.srcIpSet r.2, r.1)
+  | .macSet ps => (.macSet b.tries.length, ⟨b.tries ++ [ps], b.dedup⟩)
+  | c => ((kcondOf 0 c).1, b)
+
+/-- The typed array and the LPM sets the REAL builder emits for C01's compiled program. -/
+def assignShare (hash : List Prefix → Nat) : Builder → List (Entry MCond Out) → List KEntry × Builder
+  | b, [] => ([], b)
+  | b, e :: es =>
+    let h := kcondShare hash b e.cond
+    let r := assignShare hash h.2 es
+    (mkK e h.1 :: r.1, r.2)
+
+
 end DaeVerif.C02
